@@ -447,7 +447,7 @@ def check_lang(case):
 
 # ------------------------------------------------------------------ row -----------------
 NAMES = ["a", "b", "d", "e", "f", "g"]
-Q_TRIG = ["image", "image-maxpx", "image-app", "image-app-maxpx", "subscriberid", "simserial", "sim id", "get subscriber id", "uri:simserial", "uri:subscriberid", "uri:deviceid", "get device id", "deviceid", "phonenumber", "disabled-no", "disabled-yes", "comment"]
+Q_TRIG = ["image", "q image", "q picture", "photo", "add image prompt", "q picture-maxpx", "image-maxpx", "image-app", "image-app-maxpx", "subscriberid", "simserial", "sim id", "get subscriber id", "uri:simserial", "uri:subscriberid", "uri:deviceid", "get device id", "deviceid", "phonenumber", "disabled-no", "disabled-yes", "comment"]
 C_TRIG = ["nolabel", "nolabel-fieldlist", "nolabel-media", "disabled-no", "label-tablelist", "label-fieldlist", "label-custom", "nolabel-tablelist", "nolabel-custom", "label-hint"]
 
 
@@ -469,9 +469,11 @@ def build_row(forest, trig):
             rn = len(rows) + 2
             if t[0] == "q":
                 r = {"type": "text", "name": nm, "label": nm}
-                if tg == "image":
-                    r = {"type": "image", "name": nm, "label": nm}
+                if tg in ("image", "q image", "q picture", "photo", "add image prompt"):  # every spelling of the image type
+                    r = {"type": tg, "name": nm, "label": nm}
                     exp[("maxpx", rn)] += 1
+                elif tg == "q picture-maxpx":
+                    r = {"type": "q picture", "name": nm, "label": nm, "parameters": "max-pixels=640"}
                 elif tg == "image-maxpx":
                     r = {"type": "image", "name": nm, "label": nm, "parameters": "max-pixels=640"}
                 elif tg == "image-app":
@@ -659,3 +661,6 @@ def required_outcomes(tier):
 
 def check_one(case):
     return {"tr": check_tr, "sheet": check_sheet, "lang": check_lang, "row": check_row, "misc": check_misc}[case["g"]](case)
+
+# as-built additions of the seventh wave (reported with the bound in the evidence)
+BOUND = {k: v + "; seventh wave: " + 'every spelling of the image and deprecated metadata types among the row triggers' for k, v in BOUND.items()}
